@@ -38,6 +38,8 @@ def grid_points(rng, n, lo=-7, hi=7):
 
 def leaf_text(t):
     s = str(t[1])
+    if PLUS_SPELLING[0] and t[1] > 0:
+        s = '+' + s          # '+3' in a cell expression is the positive sense of surface 3, the same as '3'
     if t[2]:
         s += '.%d' % t[2]
     return s
